@@ -142,7 +142,8 @@ class Sim:
 
     def _handoff(self, me, forced_other=False):
         """`me` gives up the baton (its state has been set by the caller)."""
-        if self.finishing and me is not self._main:
+        if self.finishing and _real_threading.get_ident() != self._main.real_ident:
+            # (during the tear-down `self.cur` no longer identifies the caller: every released thread runs at once)
             # the run is over: a thread unwinding through the repo's `finally:` blocks (child.stop(), lock hand-overs)
             # must not park again - nobody would wake it
             raise SimAbort("sim ended")
@@ -165,6 +166,8 @@ class Sim:
 
     # -- blocking primitives ----------------------------------------------
     def block(self, wake_at=None, ev=None, join=None):
+        if self.finishing and _real_threading.get_ident() != self._main.real_ident:
+            raise SimAbort("sim ended")
         me = self.cur
         me.state = BLOCKED
         me.wake_at = wake_at
@@ -177,12 +180,16 @@ class Sim:
         return not me.woke_by_timeout
 
     def yield_now(self, forced_other=True):
+        if self.finishing and _real_threading.get_ident() != self._main.real_ident:
+            raise SimAbort("sim ended")
         me = self.cur
         me.state = RUNNABLE
         self._handoff(me, forced_other=forced_other)
 
     def yield_after_busy(self):
         """Called by a busy (clock-advancing, non-blocking) user action: let overdue sleepers run."""
+        if self.finishing and _real_threading.get_ident() != self._main.real_ident:
+            raise SimAbort("sim ended")
         me = self.cur
         due = [t for t in self.threads if t is not me and (
             (t.state == BLOCKED and t.wake_at is not None and t.wake_at <= self.now)
